@@ -12,6 +12,7 @@ def run(S):
     honest_sequence(S, D, 'C05.a', m)
     inconsistent_rejected(S, D, 'C05.a', [2, 4] if S.tier == 'quick' else [2, 4, 6, 8, 16])
     raa_acceptance(S, D)
+    channel_ready_points(S, D)
     fully_signed_commitment(S, D)
     K.run_property(S, 'C05')
 
@@ -175,3 +176,80 @@ def fully_signed_commitment(S, D):
     S.witness(ids[3], E, [n_htlc == 2, n_sig == 2], ok)
     S.validate(ids[4], E, b, n=4, extra_vectors=[(1, 1, 1), (0, 1, 1), (2, 1, 1), (1, 0, 1)])
 
+
+
+def channel_ready_points(S, D):
+    """C05.e: FundedChannel::channel_ready - when the peer's announced commitment points move. The point a later
+    revoke_and_ack is checked against (C05.c) is `counterparty_next_commitment_point` shifted into
+    `counterparty_current_commitment_point`; `channel_ready` performs the first shift. Whole function up to the call of
+    get_announcement_sigs, REAL state-flag arithmetic (the macro-generated flag types from the MIR), the point comparison a
+    free boolean: the points are shifted only by the peer's FIRST channel_ready; once the peer's channel_ready has been
+    recorded (THEIR_CHANNEL_READY, with or without WAITING_FOR_BATCH, or the channel is already ready) a further
+    channel_ready changes neither point and is accepted only if it names the expected point."""
+    import re
+    import z3
+    from engine_m import exec as X
+    ids = ['C05.e.points_move_once', 'C05.e.unused', 'C05.e.witness']
+    if all(S._skip(o) for o in ids):
+        return
+    f = S.fn('channel_ready', first_param='FundedChannel')
+    E = S.engine(unwind=2)
+    mem = {}
+    ch = E.sym('chan', '&mut ln::channel::FundedChannel<SP>', mem)
+    msg = E.sym('msg', '&ln::msgs::ChannelReady', mem)
+    same_point = z3.Bool('env.point_matches')
+    sigs = []
+    for rx, h in [
+        (r'Option<(?:bitcoin::secp256k1::)?PublicKey> as PartialEq>::ne$', lambda *a: X.B(z3.Not(same_point))),
+        (r'Option<(?:bitcoin::secp256k1::)?PublicKey> as PartialEq>::eq$', lambda *a: X.B(same_point)),
+        (r'get_announcement_sigs::<', lambda E_, m, func, argv, guard, *a: (sigs.append(X.zbool(guard)), X.Opaque('announcement sigs'))[1]),
+        (r'ChannelReady as Clone>::clone$', lambda *a: X.Opaque('msg copy')),
+        (r'PublicKey::from_secret_key::<', lambda *a: X.Opaque('derived point')),
+        (r'SecretKey::from_slice$', lambda *a: X.En('Result', 0, {0: [X.Opaque('secret key')]})),
+        (r'CounterpartyCommitmentSecrets::get_secret$', lambda *a: X.En('Option', 1, {1: [X.Opaque('secret')]})),
+        (r'ChannelError::close$', lambda *a: X.Opaque('channel error')),
+        (r'ChannelContext::<.*>::channel_id$', lambda *a: X.Opaque('channel id')),
+    ]:
+        E.models.insert(0, (re.compile(rx), h))
+    FC = D.struct_fields('FundedChannel')
+    CC = D.struct_fields('ChannelContext')
+    rd = lambda v, fields, nm, ty: E.read_path(v, (('f', fields.index(nm), ty),), mem, True, 'spec')
+    PK = 'Option<bitcoin::secp256k1::PublicKey>'
+
+    def point_byte(ctxv, nm):
+        o = rd(ctxv, CC, nm, PK)
+        pk = E.en_payload(o, 'Some', 1, 0, 'bitcoin::secp256k1::PublicKey', mem, 'spec')
+        b0 = E.read_path(pk, (('f', 0, 'bitcoin::secp256k1::ffi::PublicKey'), ('f', 0, '[u8; 64]'), ('i', 0)), mem, True, 'spec')
+        return X.zint(o.d), X.zint(b0.t)
+    msg2 = E.sym('msg2', '&ln::msgs::ChannelReady', mem)
+    same_point2 = z3.Bool('env.point_matches2')
+    calls_eq = []
+    E.models.insert(0, (re.compile(r'Option<(?:bitcoin::secp256k1::)?PublicKey> as PartialEq>::ne$'), lambda *a: (calls_eq.append(1), X.B(z3.Not(same_point if len(calls_eq) <= n_first[0] else same_point2)))[1]))
+    n_first = [10 ** 9]
+    CS = 'ln::channel::ChannelState'
+    ACR = D.variant_index('ChannelState', 'AwaitingChannelReady', hint='channel.rs')
+    CR = D.variant_index('ChannelState', 'ChannelReady', hint='channel.rs')
+    ctx0 = rd(mem[ch.cell], FC, 'context', 'ln::channel::ChannelContext<SP>')
+    st0 = rd(ctx0, CC, 'channel_state', CS)
+    pre = [z3.Or(X.zint(st0.d) == ACR, X.zint(st0.d) == CR)]
+    others = [X.Opaque('arg%d' % i) for i in range(2, len(f.params))]
+    rv1 = S.call(E, f, [ch, msg] + others, mem)
+    ret1 = S.ret_guard
+    n_first[0] = len(calls_eq)
+    ctx1 = rd(mem[ch.cell], FC, 'context', 'ln::channel::ChannelContext<SP>')
+    nd1, nb1 = point_byte(ctx1, 'counterparty_next_commitment_point')
+    cd1, cb1 = point_byte(ctx1, 'counterparty_current_commitment_point')
+    st1 = rd(ctx1, CC, 'channel_state', CS)
+    rv2 = S.call(E, f, [ch, msg2] + others, mem)
+    ret2 = S.ret_guard
+    ctx2 = rd(mem[ch.cell], FC, 'context', 'ln::channel::ChannelContext<SP>')
+    nd2, nb2 = point_byte(ctx2, 'counterparty_next_commitment_point')
+    cd2, cb2 = point_byte(ctx2, 'counterparty_current_commitment_point')
+    ok1, ok2 = X.zint(rv1.d) == 0, X.zint(rv2.d) == 0
+    unchanged = z3.And(nd2 == nd1, z3.Implies(nd1 == 1, nb2 == nb1), cd2 == cd1, z3.Implies(cd1 == 1, cb2 == cb1))
+    claim = z3.Implies(z3.And(ret1, ok1, ret2), z3.And(unchanged, z3.Implies(ok2, same_point2)))
+    S.prove(ids[0], E, pre, claim,
+            "after the peer's channel_ready has been accepted once, a further channel_ready - in whatever state the first one left the channel (still waiting for the rest of a funding batch, our own channel_ready sent or not, channel ready) - changes neither of the peer's announced commitment points and is accepted only if it names the expected point: the point the first revoke_and_ack is checked against (C05.c) cannot be replaced by re-sending channel_ready",
+            [], bounds='two consecutive calls of channel_ready (whole function up to get_announcement_sigs) from an arbitrary AwaitingChannelReady / ChannelReady state, the real flag arithmetic of the macro-generated state-flag types; points observed through their first byte (free symbols), point comparison a free boolean',
+            assumptions=['claims are about executions in which neither call panics (debug assertion: OUR_CHANNEL_READY and WAITING_FOR_BATCH are never set together)'])
+    S.witness(ids[2], E, pre + [ret1, ok1, ret2, ok2], z3.And(X.zint(st0.d) == ACR, nd1 == 1))
